@@ -87,11 +87,11 @@ class Creators:
         gfa_line = gfapy.Line(gfa_line, dialect=self._dialect)
       gfa_line.connect(self)
     elif rt == "H":
-      self._n_input_header_lines += 1
       if isinstance(gfa_line, str):
         gfa_line = gfapy.Line(gfa_line, vlevel=self._vlevel,
             dialect=self._dialect)
       self.header._merge(gfa_line)
+      self._n_input_header_lines += 1
       if gfa_line.VN:
         if gfa_line.VN == "1.0":
           self._version = "gfa1"
@@ -113,11 +113,12 @@ class Creators:
       self.process_line_queue()
       gfa_line.connect(self)
     elif rt in ["E", "F", "G", "U", "O"]:
-      self._version = "gfa2"
-      self._version_explanation = "implied by: presence of a {} line".format(rt)
       if isinstance(gfa_line, str):
         gfa_line = gfapy.Line(gfa_line, vlevel=self._vlevel,
-            version=self._version, dialect=self._dialect)
+            version="gfa2", dialect=self._dialect)
+      # a line which cannot be parsed does not decide the version
+      self._version = "gfa2"
+      self._version_explanation = "implied by: presence of a {} line".format(rt)
       self.process_line_queue()
       gfa_line.connect(self)
     elif rt in ["L", "C", "P"]:
@@ -140,13 +141,13 @@ class Creators:
         "Cannot add instance of incompatible line type "+
         str(type(gfa_line)))
     if gfa_line.record_type == "H":
-      self._n_input_header_lines += 1
       if self._vlevel > 0 and gfa_line.VN and gfa_line.VN != "1.0":
         raise gfapy.VersionError(
           "Header line specified wrong version ({})\n".format(gfa_line.VN)+
           "Line: {}\n".format(gfa_line)+
           "File version: 1.0 ({})".format(self._version_explanation))
       self.header._merge(gfa_line)
+      self._n_input_header_lines += 1
     elif gfa_line.record_type == "S":
       if gfa_line.version == "gfa2":
         raise gfapy.VersionError(
@@ -174,13 +175,13 @@ class Creators:
         "Cannot add instance of incompatible line type "+
         str(type(gfa_line)))
     if gfa_line.record_type == "H":
-      self._n_input_header_lines += 1
       if self._vlevel > 0 and gfa_line.VN and gfa_line.VN != "2.0":
         raise gfapy.VersionError(
           "Header line specified wrong version ({})\n".format(gfa_line.VN)+
           "Line: {}\n".format(gfa_line)+
           "File version: 2.0 ({})".format(self._version_explanation))
       self.header._merge(gfa_line)
+      self._n_input_header_lines += 1
     elif gfa_line.record_type == "S":
       if gfa_line.version == "gfa1":
         raise gfapy.VersionError(
